@@ -634,10 +634,23 @@ def _retry_case(case: dict, ctx: dict, bump: typing.Callable) -> typing.Tuple[li
         ns = build_namespace_tree(types, os.path.join(world.in_dir, root), out, lctx)
         return ns, DSDLCodeGenerator(ns, templates_dir=pathlib.Path(os.path.join(world.tpl_dir, tpl)), post_processors=pps)
 
+    # the support generator shares the processor objects with the type generator (as create_default_generators and
+    # the command line do); its rendered header starts and ends with blank lines
+    from nunavut.jinja import SupportGenerator
+
+    sup_dir = usertpl.plant(world.tpl_dir, "blanky-support-cpp", usertpl.SUPPORT_SETS["blanky"]("cpp"))
+
+    def sgen_for(ns: typing.Any, pps: typing.Optional[list]) -> typing.Any:
+        return SupportGenerator(ns, support_templates_dir=pathlib.Path(sup_dir), post_processors=pps)
+
     ns_raw, g_raw = gen(os.path.join(sandbox, "raw"), [])
     g_raw.generate_all(False, True, True, False)
     raw = {os.path.relpath(str(p), os.path.join(sandbox, "raw")): open(str(p), "r", encoding="utf-8", newline="").read() for _, p in ns_raw.get_all_datatypes()}
-    ns_a, g_a = gen(os.path.join(sandbox, "out"), make_procs(procs))
+    for sp in sgen_for(ns_raw, []).generate_all(False, True, False, False):
+        raw[os.path.relpath(str(sp), os.path.join(sandbox, "raw"))] = open(str(sp), "r", encoding="utf-8", newline="").read()
+    shared_pps = make_procs(procs)
+    ns_a, g_a = gen(os.path.join(sandbox, "out"), shared_pps)
+    s_a = sgen_for(ns_a, shared_pps)
     seams.fault = {"kind": "write_oserror", "errno": "ENOSPC", "file": seams.wopen_count + fault["file"], "write": fault["write"], "partial": 50}
     seams.fault_fired = None
     aborted = False
@@ -649,6 +662,8 @@ def _retry_case(case: dict, ctx: dict, bump: typing.Callable) -> typing.Tuple[li
     if aborted and seams.fault_fired:
         bump("probes", "file_aborted_by_write_fault")
     g_a.generate_all(False, True, True, False)  # the retry, same generator object and processor objects
+    s_a.generate_all(False, True, False, False)  # support AFTER the type files (API order), the same processor objects
+    s_a.generate_all(False, True, False, False)  # ... and once more (regeneration)
     seams.enabled = False
     v = []
     for rel, text in sorted(raw.items()):
